@@ -144,3 +144,132 @@ func VP_C01_cnf_slice() {
 		zzvp.Assert(zzvp.Not(spec), "answered Unsat but formula satisfiable")
 	}
 }
+
+// vpCDCLSkeletons: variable positions of formulas that need real conflict
+// analysis (learning, minimisation, backjumping); the signs are symbolic.
+var vpCDCLSkeletons = [][][]int{
+	// 0: pigeon-hole 3 pigeons / 2 holes (p_ij = (i-1)*2+j), unsatisfiable with the natural signs
+	{{1, 2}, {3, 4}, {5, 6}, {-1, -3}, {-1, -5}, {-3, -5}, {-2, -4}, {-2, -6}, {-4, -6}},
+	// 1: implication cycle with a twist
+	{{-1, 2}, {-2, 3}, {-3, 4}, {-4, 5}, {-5, -1}, {1, 5}, {2, 4, -3}},
+	// 2: 3-SAT over 5 variables
+	{{1, 2, 3}, {-1, 2, 4}, {1, -2, 5}, {-3, -4, 5}, {3, 4, -5}, {-1, -2, -5}, {2, -3, -4}, {-2, 3, -5}},
+	// 3: two overlapping xor-like blocks
+	{{1, 2}, {-1, -2}, {2, 3}, {-2, -3}, {3, 4}, {-3, -4}, {1, 4}, {-1, -4}},
+}
+
+// VP_C01_cnf_skeleton: fixed skeletons over 4-6 variables whose literal signs
+// are symbolic: verdict, model, and (optionally) the certificate.
+func VP_C01_cnf_skeleton() {
+	zzvp.IntMode(true)
+	sk := vpCDCLSkeletons[zzvp.Choose("skeleton", zzvp.Param("nskel", len(vpCDCLSkeletons)))]
+	maxSym := zzvp.Param("maxsigns", 8)
+	n, cnt := 0, 0
+	var cnf, orig [][]int
+	for _, c := range sk {
+		a, b := make([]int, len(c)), make([]int, len(c))
+		for i, l := range c {
+			v := l
+			if v < 0 {
+				v = -v
+			}
+			if v > n {
+				n = v
+			}
+			x := l
+			if cnt < maxSym {
+				x = zzvp.Ite(zzvp.Bool("flip"), -l, l)
+				cnt++
+			}
+			a[i], b[i] = x, x
+		}
+		cnf, orig = append(cnf, a), append(orig, b)
+	}
+	pb := ParseSliceNb(cnf, n)
+	vpAMO(pb)
+	s := New(pb)
+	vpCPSetup(s, n, nil)
+	cert := zzvp.Param("cert", 0) == 1
+	if cert {
+		s.Certified = true
+		s.CertChan = make(chan string, 4096)
+	}
+	if zzvp.Param("smalldb", 0) == 1 && zzvp.Choose("smalldb", 2) == 1 {
+		s.wl.nbMax = 1
+	}
+	vpSteer(s)
+	st := s.Solve()
+	zzvp.Assert(st == Sat || st == Unsat, "status is Sat or Unsat")
+	// all literals are concrete by now in practice; decide the reference concretely
+	F := make([][]int, len(orig))
+	for i, cl := range orig {
+		F[i] = make([]int, len(cl))
+		for j, l := range cl {
+			F[i][j] = zzvp.Concretize(l)
+		}
+	}
+	sat := false
+	for a := 0; a < 1<<uint(n) && !sat; a++ {
+		all := true
+		for _, cl := range F {
+			ok := false
+			for _, l := range cl {
+				if ((a>>uint(vpAbs(l)-1))&1 == 1) == (l > 0) {
+					ok = true
+				}
+			}
+			if !ok {
+				all = false
+				break
+			}
+		}
+		sat = all
+	}
+	zzvp.Assert((st == Sat) == sat, "the verdict is wrong")
+	if st == Sat {
+		zzvp.Reach("sat")
+		m := s.Model()
+		zzvp.Assert(len(m) == n, "model has one value per declared variable")
+		for _, cl := range F {
+			ok := false
+			for _, l := range cl {
+				if m[vpAbs(l)-1] == (l > 0) {
+					ok = true
+				}
+			}
+			zzvp.Assert(ok, "the model violates a clause")
+		}
+	} else {
+		zzvp.Reach("unsat")
+	}
+	if s.Stats.NbLearned > 0 {
+		zzvp.Reach("learned")
+	}
+	if s.Stats.NbDeleted > 0 {
+		zzvp.Reach("deleted")
+	}
+	if cert {
+		var lines []string
+		for len(s.CertChan) > 0 {
+			lines = append(lines, <-s.CertChan)
+		}
+		db := append([][]int{}, F...)
+		for _, line := range lines {
+			c, ok := vpParseLine(line)
+			zzvp.Assert(ok, "certificate line is not a DIMACS clause")
+			if !ok {
+				return
+			}
+			if st == Unsat {
+				zzvp.Assert(vpRUP(db, n, c), "certificate line is not derivable by unit propagation")
+			} else {
+				zzvp.Assert(vpImplied(F, n, c), "a clause emitted on a satisfiable formula is not a consequence of it")
+			}
+			db = append(db, c)
+			zzvp.Reach("line")
+		}
+		if st == Unsat {
+			zzvp.Assert(vpRUP(db, n, nil), "the empty clause is not derivable from the certificate")
+		}
+	}
+}
